@@ -42,9 +42,9 @@ type tcEvent struct {
 	First bool     `json:"first"` // first instant of a (format, batch) sequence sorted by instant
 	Fmt   string   `json:"fmt"`   // srt vtt ttml ssa stl
 	Fps   int      `json:"fps"`
-	T     [2]int   `json:"t"`    // instant: [whole ms, remaining ns]
-	F     tcFields `json:"f"`    // what the writer rendered
-	Back  [2]int   `json:"back"` // what the same format's reader made of it
+	T     [2]int   `json:"t"`     // instant: [whole ms, remaining ns]
+	F     tcFields `json:"f"`     // what the writer rendered
+	Back  [2]int   `json:"back"`  // what the same format's reader made of it
 	Same2 bool     `json:"same2"` // writing the re-read list again gave identical bytes
 	Res   string   `json:"res"`
 	Msg   string   `json:"msg"`
